@@ -50,7 +50,7 @@ def retry_case(draw, brokers):
             "jobs": jobs}
     if broker != "mem":
         case["lat"] = draw(st.lists(st.sampled_from([0.0, 0.001, 0.003]), max_size=20))
-    return gen.finalize(case)
+    return gen.finalize(gen.host_dims(draw, case))
 
 
 def run(case: dict) -> Outcome:
